@@ -8,7 +8,7 @@ from hypothesis import strategies as st
 
 from .. import models as M
 from .. import rulespace as RS
-from ..drive import eval_layer_rule, make_evaluable, reuse_aware, warmup
+from ..drive import eval_layer_rule, evaluable_for, make_evaluable, reuse_aware, warmup
 
 ID = "C05"
 MOD = __name__
@@ -97,8 +97,10 @@ def check_with(tree, imports, layer_defs, rule, ev) -> dict:
 @reuse_aware
 def check_case(spec: dict) -> dict:
     tree, imports = spec["tree"], [tuple(e) for e in spec["imports"]]
-    ev = make_evaluable(tree, imports)
-    return check_with(tree, imports, spec["layers"], spec["rule"], ev)
+    res = check_with(tree, imports, spec["layers"], spec["rule"], evaluable_for(spec))
+    if spec.get("full_tree"):
+        res["labels"].append("flattened-by-level-limit")
+    return res
 
 
 # ------------------------------------------------------------------------------ exhaustive
@@ -223,6 +225,8 @@ def cases(draw):
     focus = set(M.layer_den(tree, layers[subj]))
     imports = draw(RS.import_relation(tree, focus=focus, max_edges=14))
     spec = {"tree": tree, "imports": [list(x) for x in imports], "layers": layer_defs, "rule": rule}
+    if draw(st.integers(0, 4)) == 0:
+        spec.update(draw(RS.preimage(tree, imports)))  # the same architecture as the flattening of a deeper one
     w = draw(st.integers(0, 5))
     if w == 0:
         spec["warm"] = draw(RS.decoys(tree))
